@@ -161,7 +161,7 @@ def _c02_dispatcher(tier, seed):
             "assumptions": props_dq.ASSUME}
 
 
-COMPOSITE = {"C10": [_c10_plan, _c10_lists]}
+COMPOSITE = {"C10": [_c10_plan, _c10_lists], "C16": [props_dq.c16, props_het.c16h]}
 COMPOSITE["C02"] = [lambda tier, seed: props_cl.c02(tier, seed), _c02_dispatcher]
 def _c08_lists(tier, seed):
     quick = tier == "quick"
